@@ -560,6 +560,29 @@ pub fn parser_inputs(tier: &str, rng: &mut Rng, f: &mut dyn FnMut(&[u8], u8)) {
             q.extend(ext);
             f(&q, 3);
         }
+        // tails at every message boundary: what a caller who did not strip the transport layer (or concatenated buffers) passes
+        let tails: [&[u8]; 9] = [
+            &[0x1b, 0x1b, 0x1b, 0x1b, 0x1a, 0x00, 0x12, 0x34],
+            &[0x00, 0x1b, 0x1b, 0x1b, 0x1b, 0x1a, 0x01, 0x12, 0x34],
+            &[0x00, 0x00, 0x00, 0x1b, 0x1b, 0x1b, 0x1b, 0x1a, 0x03, 0x12, 0x34],
+            &[0x1b, 0x1b, 0x1b, 0x1b],
+            &[0x1b, 0x1b, 0x1b, 0x1b, 1, 1, 1, 1],
+            &[0x76, 0x05],
+            &[0xff],
+            &[0, 0, 0, 0, 0],
+            &[0x1a],
+        ];
+        let mut cuts: Vec<usize> = elems.iter().filter(|e| e.depth == 0 && e.pos > 0).map(|e| e.pos).collect();
+        cuts.push(p.len());
+        cuts.dedup();
+        for c in cuts {
+            for t in tails.iter() {
+                let mut q = p[..c].to_vec();
+                q.extend(*t);
+                q.extend(&p[c..]);
+                f(&q, 3);
+            }
+        }
         // truncation at message boundaries + extension by a whole valid message is still valid: covered by class 0 of others
         // single-byte substitutions, with and without checksum fix-up
         let full = bi < nfull;
